@@ -6,6 +6,7 @@ import ZvtVerif.Derive
 import ZvtVerif.Generated
 import ZvtVerif.Sequence
 import ZvtVerif.Client
+import ZvtVerif.WriteFile
 namespace Zvt.Driver
 open Zvt
 
@@ -282,6 +283,40 @@ def opSeq (name : String) (input : Bytes) (items : List Bytes) : String :=
 def parseItems (s : String) (sep : String) : Option (List Bytes) :=
   (s.splitOn sep).mapM parseHex
 
+/-! ### `wf` op -/
+
+/-- same deterministic content as harness/src/wf.rs `content` -/
+def wfContent (size seed : Nat) : Bytes :=
+  (List.range size).map fun i => byte ((seed * 31 + i * 7 + (i / 256) * 13 + (i / 65536)) % 256)
+
+def insertById (x : Nat × Bytes) : List (Nat × Bytes) → List (Nat × Bytes)
+  | [] => [x]
+  | y :: ys => if x.1 < y.1 then x :: y :: ys else if x.1 = y.1 then x :: ys else y :: insertById x ys
+
+def parseDir (s : String) : Option (List (Nat × Bytes)) :=
+  if s = "-" then some [] else
+  (s.splitOn ",").foldlM (fun acc f =>
+    match f.splitOn ":" with
+    | [path, size, seed] =>
+      match size.toNat?, seed.toNat? with
+      | some sz, some sd =>
+        match Generated.fileIds.find? (·.1 = path) with
+        | some (_, id) => some (insertById (id, wfContent sz sd) acc)
+        | none => some acc
+      | _, _ => none
+    | _ => none) []
+
+def showEvWf : Ev → String
+  | .y i v => (match wfEnum.variants[i]? with
+      | some (name, sd) => s!"y:{i}:{name}:{showVal (.struct sd.fields) v}"
+      | none => "y:?")
+  | e => showEv wfEnum e
+
+def opWf (block password : Nat) (dir : String) (items : List Bytes) : String :=
+  match parseDir dir with
+  | none => "bad-op"
+  | some files => " / ".intercalate ((mergeReads (runWriteFile files block password items)).map showEvWf)
+
 /-! ### `client` op -/
 
 def parseKV (toks : List String) : List (String × String) :=
@@ -433,6 +468,10 @@ def handle (line : String) : String :=
     match findEnum en, parseItems chunks "|" with
     | some e, some cs => opRead e cs
     | _, _ => "bad-op"
+  | ["wf", block, password, dir, script] =>
+    match block.toNat?, password.toNat?, (if script = "." then some [] else parseItems script ",") with
+    | some b, some p, some items => opWf b p dir items
+    | _, _, _ => "bad-op"
   | ["seq", name, input, script] =>
     match parseHex input, (if script = "." then some [] else parseItems script ",") with
     | some i, some items => opSeq name i items
